@@ -522,9 +522,28 @@ def determinism_selftest(prop_id: str, batch_seed: int, n: int, jobs: int, opts:
 # Check driver
 
 
+def sweep_scratch() -> None:
+    """Remove scratch directories left on tmpfs by workers that no longer exist (crashed or killed runs)."""
+    import glob
+    import shutil
+
+    for d in glob.glob("/dev/shm/simgriffe-*") + glob.glob("/tmp/simgriffe-*"):
+        tail = d.rsplit("-", 1)[-1]
+        if tail.isdigit() and not os.path.exists(f"/proc/{tail}"):
+            shutil.rmtree(d, ignore_errors=True)
+
+
 def run_check(prop_id: str, tier: str, batch_seed: int, jobs: int, n_runs: int | None, wall_cap: float | None) -> int:
+    try:
+        return _run_check(prop_id, tier, batch_seed, jobs, n_runs, wall_cap)
+    finally:
+        sweep_scratch()
+
+
+def _run_check(prop_id: str, tier: str, batch_seed: int, jobs: int, n_runs: int | None, wall_cap: float | None) -> int:
     from simgriffe.props import get_prop
 
+    sweep_scratch()
     assert_repo_under_test()
     prop = get_prop(prop_id)
     cfg = prop.TIERS[tier]
